@@ -3,12 +3,20 @@ import MxModel.Proofs.IOSpecMain
 # C18 – an IOSpec lives exactly as long as a reference to its value
 
 Property theorems only (lemmas: `Proofs/IOSpec*.lean`; model: `Kernels/IOSpec.lean`).  The model
-is bug-faithful: six behaviours of modelx break the property.  Each is a decidable predicate on
-(state, operation) – `trigCellsName`, `trigDoubleSpec`, `trigRebindSame`, `trigSheetNone`,
-`trigDirtyDelete`, `trigUpdateOnto` – and `AllClean kw st ops` says that no operation of a history
-meets any of them.  The full statements are false of the model and of modelx: every `…_fails_…`
-theorem below is the negation of a full statement, with the witness history that is also replayed
-on the implementation (`corpus/C18/known-*.json`, known findings `C18-…`).
+is bug-faithful: four behaviours of modelx break the property.  Each is a decidable predicate on
+(state, operation) – `trigCellsName`, `trigDoubleSpec`, `trigDirtyDelete`, `trigUpdateOnto` – and
+`AllClean kw st ops` says that no operation of a history meets any of them.  The full statements
+are false of the model and of modelx: every `…_fails_…` theorem below is the negation of a full
+statement, with the witness history that is also replayed on the implementation
+(`corpus/C18/known-*.json`, known findings `C18-…`).
+
+Five further defects found by this check were repaired in /repo (known_findings.json, status
+fixed; witnesses `corpus/C18/fixed-*.json`).  Two of them were in the model: rebinding a name to
+the object it already holds deleted the object's spec (aad9766), and the sheet setter accepted a
+sheet-less spec next to another one (626845c).  The model follows the repaired code, so
+`spec_survives_partial` no longer excludes the rebinding, `locations_distinct` holds for every
+history without hypothesis, and the former negation witnesses are positive examples at the end
+of this file.
 
 `kw` is Python's keyword table (regenerated); the theorems hold for every table.
 -/
@@ -53,29 +61,29 @@ theorem ioInv_of_rinv {st : St} (h : RInv st) : IOInv st := by
 creating models, spaces and cells, `new_pandas` (accepted or rejected), assignment of any value to
 any name (new name, rebinding, a second name for a value, names of cells and spaces, invalid
 names), deletion of references and of spaces, `update_pandas` in place and with a new object,
-sheet changes, `del_spec`, `close`, on any model or space, existing or not – that avoids the six
+sheet changes, `del_spec`, `close`, on any model or space, existing or not – that avoids the four
 triggers, the statement holds. -/
 theorem spec_iff_referenced_partial (kw : List String) (ops : List Op) (h : AllClean kw {} ops) :
     IOInv (run kw {} ops) :=
   ioInv_of_rinv (rinv_run kw ops {} rinv_empty h)
 
-/-- one step, from any state in which the statement's invariant holds: only four of the triggers
-matter for the state invariant -/
+/-- one step, from any state in which the statement's invariant holds -/
 theorem spec_iff_referenced_step (kw : List String) (st : St) (op : Op) (h : RInv st)
     (k1 : trigCellsName st op = false) (k2 : trigDoubleSpec st op = false)
     (k5 : trigDirtyDelete st op = false) (k6 : trigUpdateOnto st op = false) :
     IOInv (step kw st op) :=
-  ioInv_of_rinv (rinv_step kw h (by simp [cleanInv, k1, k2, k5, k6]))
+  ioInv_of_rinv (rinv_step kw h (by simp [clean, k1, k2, k5, k6]))
 
 /-- **A spec does not die before the last reference to its value (partial).**  After a clean
-history, an operation other than `del_spec`/`close` that avoids the triggers removes a spec only
-if afterwards no reference of the model is bound to the spec's value. -/
+history, an operation other than `del_spec`/`close` that avoids the four triggers – in particular
+every assignment, also of the object the name already holds – removes a spec only if afterwards no
+reference of the model is bound to the spec's value. -/
 theorem spec_survives_partial (kw : List String) (ops : List Op) (op : Op)
     (h : AllClean kw {} ops) (hc : clean (run kw {} ops) op = true) (hop : removesSpecs op = false) :
     ∀ σ ∈ (run kw {} ops).specs, (∀ τ ∈ (step kw (run kw {} ops) op).specs, τ.sid ≠ σ.sid) →
       ∀ r ∈ (step kw (run kw {} ops) op).refs, ¬ (r.owner.model = σ.group ∧ r.val = σ.val) := by
-  obtain ⟨k1, k2, k3, _, k5, k6⟩ := clean_parts hc
-  exact spec_survives_step kw (rinv_run kw ops {} rinv_empty h) k1 k2 k3 k5 k6 hop
+  obtain ⟨k1, k2, k5, k6⟩ := clean_parts hc
+  exact spec_survives_step kw (rinv_run kw ops {} rinv_empty h) k1 k2 k5 k6 hop
 
 /-- **rejected_creation_leaves_nothing** (full strength: every history, clean or not).  If
 `new_pandas` raises – the file location is taken, the data is not a pandas object, the name is
@@ -90,12 +98,12 @@ theorem rejected_creation_leaves_nothing (kw : List String) (ops : List Op) (o :
     (newPandas kw (run kw {} ops) o n path csv sheet data).1.cells = (run kw {} ops).cells :=
   newPandas_rejected (sidOK_run kw ops {} ⟨by simp [sp], by simp [sp]⟩) he
 
-/-- **locations_distinct (partial: `AllSheetOK`, the sheet-setter trigger alone).**  Two different
-specs of one file of one model: the file is an Excel file, both name a sheet, the names differ
-(a csv file, and a sheet-less spec, are never shared). -/
-theorem locations_distinct_partial (kw : List String) (ops : List Op) (h : AllSheetOK kw {} ops) :
-    Loc (run kw {} ops).specs :=
-  loc_run kw ops {} ⟨by simp [sp], by simp [sp]⟩ (by intro σ hσ; cases hσ) h
+/-- **locations_distinct** (full strength: every history, clean or not).  Two different specs of
+one file of one model: the file is an Excel file, both name a sheet, the names differ (a csv file,
+and a sheet-less spec, are never shared) – whatever was created, updated, deleted, and whatever
+sheets were set. -/
+theorem locations_distinct (kw : List String) (ops : List Op) : Loc (run kw {} ops).specs :=
+  loc_run kw ops {} ⟨by simp [sp], by simp [sp]⟩ (by intro σ hσ; cases hσ)
 
 /-- **close_releases (partial).**  After a clean history, closing an open or unknown model
 succeeds, leaves no spec (hence no io) of that model in the IOManager, and the model is gone. -/
@@ -116,12 +124,6 @@ def wCellsName : List Op :=
 /-- C18-double-spec -/
 def wDoubleSpec : List Op :=
   setup ++ [.newPandas s1 "x" "a.csv" true none (.df 0), .newPandas s1 "y" "b.csv" true none (.df 0)]
-/-- C18-rebind-same -/
-def wRebindSame : List Op := setup ++ [.newPandas s1 "x" "a.csv" true none (.df 0)]
-/-- C18-sheet-setter -/
-def wSheet : List Op :=
-  setup ++ [.newPandas s1 "x" "b.xlsx" false (some "s1") (.df 0),
-            .newPandas s1 "y" "b.xlsx" false (some "s2") (.df 1), .setSheet 0 (.df 1) none]
 /-- C18-del-space -/
 def wDelSpace : List Op :=
   setup ++ [.newPandas s1 "x" "a.csv" true none (.df 0), .del ⟨0, 0⟩ "S"]
@@ -155,23 +157,6 @@ theorem full_fails_update_onto_referenced :
   have := (h [] wUpdateOnto).v2rExact 0 (.df 1) ⟨1, s1, "y", .df 1⟩
   revert this; decide +kernel
 
-/-- `S.x = df` while `S.x` is the only reference to `df`: the spec is deleted although `S.x` is
-still bound to `df` -/
-theorem spec_survives_fails_rebind_same :
-    ¬ ∀ (kw : List String) (ops : List Op) (op : Op), removesSpecs op = false →
-      ∀ σ ∈ (run kw {} ops).specs, (∀ τ ∈ (step kw (run kw {} ops) op).specs, τ.sid ≠ σ.sid) →
-        ∀ r ∈ (step kw (run kw {} ops) op).refs, ¬ (r.owner.model = σ.group ∧ r.val = σ.val) := by
-  intro h
-  have := h [] wRebindSame (.bind s1 "x" (.df 0)) rfl
-  revert this; decide +kernel
-
-/-- `spec.sheet = None` next to a named sheet: a location creation would refuse -/
-theorem locations_distinct_fails_sheet_setter :
-    ¬ ∀ (kw : List String) (ops : List Op), Loc (run kw {} ops).specs := by
-  intro h
-  have := h [] wSheet
-  revert this; unfold Loc; decide +kernel
-
 /-- after `new_pandas` twice for one value, `close` leaves a spec (and its io) of the model behind -/
 theorem close_releases_fails_double_spec :
     ¬ ∀ (kw : List String) (ops : List Op) (m : Nat),
@@ -200,8 +185,7 @@ example : AllClean [] {} demo := by decide +kernel
 example : ((run [] {} demo).specs.map (fun σ => (σ.val, σ.path, σ.sheet))) =
     [(.df 1, "b.xlsx", some "s2")] := by decide +kernel
 example : IOInv (run [] {} demo) := spec_iff_referenced_partial [] demo (by decide +kernel)
-example : Loc (run [] {} demo).specs :=
-  locations_distinct_partial [] demo (allSheetOK_of_allClean [] demo {} (by decide +kernel))
+example : Loc (run [] {} demo).specs := locations_distinct [] demo
 /-- the rejected creation of `demo` is really rejected -/
 example : (match (stepR [] (run [] {} (demo.take 9)) (demo.getD 9 (.close 0))).2 with
     | .error .value => true
@@ -211,5 +195,35 @@ example : (match (stepR [] (run [] {} (demo.take 9)) (demo.getD 9 (.close 0))).2
 example : ((run [] {} (demo.take 16)).specs.length, (run [] {} (demo.take 17)).specs.length) = (2, 1) := by
   decide +kernel
 example : (closeModel (run [] {} demo) 0).2 = .ok () := (close_releases_partial [] demo 0 (by decide +kernel)).1
+
+/-! ## The repaired defects as positive examples -/
+
+/-- fixed C18-rebind-same -/
+def wRebindSame : List Op :=
+  setup ++ [.newPandas s1 "x" "a.csv" true none (.df 0), .bind s1 "x" (.df 0),
+            .bind s1 "y" (.df 1), .newPandas s1 "y" "b.csv" true none (.df 1)]
+/-- fixed C18-sheet-setter -/
+def wSheet : List Op :=
+  setup ++ [.newPandas s1 "x" "b.xlsx" false (some "s1") (.df 0),
+            .newPandas s1 "y" "b.xlsx" false (some "s2") (.df 1)]
+
+/-- `S.x = df` while `S.x` is the only reference to `df` keeps the spec of `df` (the entry then
+lists the new reference); so does `new_pandas` onto a name that already holds the object -/
+example : AllClean [] {} wRebindSame := by decide +kernel
+example : ((run [] {} (wRebindSame.take 3)).specs.map (·.sid), (run [] {} (wRebindSame.take 4)).specs.map (·.sid),
+    (run [] {} wRebindSame).specs.map (fun σ => (σ.sid, σ.val))) = ([0], [0], [(0, .df 0), (1, .df 1)]) := by
+  decide +kernel
+example : (run [] {} (wRebindSame.take 4)).v2r.map (fun e => (e.1, e.2.map (·.rid))) = [((0, .df 0), [1])] := by
+  decide +kernel
+/-- the sheet setter refuses `None` next to another spec of the workbook, and a name in use -/
+example : (match (stepR [] (run [] {} wSheet) (.setSheet 0 (.df 1) none)).2,
+      (stepR [] (run [] {} wSheet) (.setSheet 0 (.df 1) (some "s1"))).2,
+      (stepR [] (run [] {} wSheet) (.setSheet 0 (.df 1) (some "s3"))).2 with
+    | .error .value, .error .value, .ok () => true
+    | _, _, _ => false) = true := by decide +kernel
+/-- alone in its workbook a spec may drop its sheet name -/
+example : (match (stepR [] (run [] {} (wSheet.take 3)) (.setSheet 0 (.df 0) none)).2 with
+    | .ok () => true
+    | _ => false) = true := by decide +kernel
 
 end MxModel.C18
